@@ -259,11 +259,13 @@ def _composition2musicxml(comp):
     # add tracks
     part_list = doc.createElement("part-list")
     score.appendChild(part_list)
-    for t in comp:
+    for number, t in enumerate(comp):
         track = _track2musicxml(t)
         score_part = doc.createElement("score-part")
-        track.setAttribute("id", str(id(t)))
-        score_part.setAttribute("id", str(id(t)))
+        # one id per position: the same Track object may be added twice
+        part_id = "P%d" % (number + 1)
+        track.setAttribute("id", part_id)
+        score_part.setAttribute("id", part_id)
         part_name = doc.createElement("part-name")
         part_name.appendChild(doc.createTextNode(t.name))
         score_part.appendChild(part_name)
@@ -291,7 +293,6 @@ def _composition2musicxml(comp):
                 midi.appendChild(program)
                 score_part.appendChild(midi)
         part_list.appendChild(score_part)
-        track.setAttribute("id", str(id(t)))
         score.appendChild(track)
     return score
 
